@@ -242,6 +242,18 @@ def main(argv):
               open(path, "w"), indent=1)
     c["replay_file"] = path
     jobs_files.append(path)
+  # bounded native probes requested by contracts (clauses the symbolic side cannot express, e.g. IEEE non-finite values):
+  # the native replayer searches a fixed family of concrete inputs; a hit is a violation with a real failing input,
+  # no hit is recorded as a bounded stand-in (never counted as proved)
+  probe_jobs = []
+  for r in results:
+    for pr in r.get("native_probes", []):
+      ob = r["case"] + "/" + pr["clause"]
+      path = os.path.join(VERIF, "replay", "bounded_" + slug(ob) + ".json")
+      json.dump({"property": prop, "obligation": ob, "case": r["name"], "clause": pr["clause"], "kind": pr["kind"],
+                 "witness": pr["witness"], "role": "bounded-probe", "bound": pr["bound"]}, open(path, "w"), indent=1)
+      probe_jobs.append((r, pr, path))
+      jobs_files.append(path)
   seen_known = {}
   if tier == "quick":
     # quick: replay natively one witness per finding; thorough: every obligation's witness
@@ -284,6 +296,18 @@ def main(argv):
       violations.append((r, cname, c, ""))
     else:
       undecided.append((r["case"] + "/" + cname, "solver undecided and native probe found nothing (%s): %s" % (nat, c["reason"][:300])))
+  for r, pr, path in probe_jobs:
+    d = json.load(open(path))
+    nat = d.get("native", {}).get("status")
+    b = bounded_cases.setdefault(r["case"] + "/" + pr["clause"],
+                                 {"case": r["case"] + "/" + pr["clause"], "bound": pr["bound"], "clauses": 1, "held": 0})
+    if nat == "confirmed":
+      c = {"witness": d.get("native", {}).get("observed"), "replay_file": path}
+      violations.append((r, pr["clause"], c, ""))
+    elif nat == "refuted":
+      b["held"] = 1
+    else:
+      undecided.append((r["case"] + "/" + pr["clause"], "bounded native probe did not run: %s" % d.get("native")))
   known_confirmed = {}
   known_unconfirmed = []
   for r, cname, k in known_hits:
